@@ -8,12 +8,12 @@ PID = "C03"
 RULE = ("per seed a pool of shapes built to contain every pattern (nested, hole-in-hole, unbounded in unbounded, "
         "component-wise, crossing, disjoint, L-shapes with squares in the notch, Empty, Whole); all ordered pairs in "
         "general position (or nested without contact), unbounded Connected and Disjoint containers with bounded contents, curved contents whose control polygon leaves the container while the curve stays inside (parabola cap in a rectangle, few-arc circle in a tight square; closed-form truth), plus simple shapes whose boundaries touch without crossing (shared vertex, vertex on an edge, shared part of an edge; bounded/unbounded): `B in A`, A.contains_shape(B), the corollaries A in A, "
-        "B in A => A|B == A and A&B == B; contains_jordan with both flags for curves against shapes; exact subset "
+        "B in A => A|B == A and A&B == B; contains_jordan with both flags for curves against shapes; pairs of strictly convex polygons (nested, crossing, disjoint, containing: the range of C03_convex_in_iff, hypotheses evaluated by the extracted model); exact subset "
         "oracle by slab sampling; every pair with answer True and a third of the others asked again after a history (one operand built displaced / scaled / point-reflected, asked there, brought into place by in-place move / scale); non-trivial = bounding boxes overlap and neither is Empty/Whole; distinct = SHA-1")
 PROOF_STATUS = ("Props/C03.v: Empty/Whole rows, composition rules for Connected/Disjoint containers and contents; curve-in-shape "
                 "(the heart of `B in A`) is SOUND and COMPLETE for polygons: in general position `J in A` holds iff every point of "
-                "J is inside or on A (C03_curve_in_shape_iff), lifted to all container kinds; the area/orientation case analysis of "
-                "simple-in-simple on top of it is the oracle's (partial); F10, F11, F22 repaired")
+                "J is inside or on A (C03_curve_in_shape_iff), lifted to all container kinds; REGION level for strictly convex polygons: `B in A` decides subset of the regions (C03_convex_in_iff, decidable hypotheses); the area/orientation case analysis of "
+                "simple-in-simple for non-convex polygons is the oracle's (partial); F10, F11, F22 repaired")
 
 
 def _scale(s, k, v):
@@ -126,6 +126,35 @@ def cases(ctx):
         b = ("S", U.reverse_jordan(jb) if ob else jb)
         yield {"a": a, "b": b, "same": False, "touch": mode}
         yield {"a": b, "b": a, "same": False, "touch": mode}
+    # pairs of strictly convex polygons: nested (B a shrunken / displaced copy or a small polygon inside A), crossing,
+    # disjoint -- the range of C03_convex_in_iff, whose hypotheses the extracted model evaluates
+    from .c01 import _convex_polygon
+    for i in range(ctx.n(16, 300)):
+        va = _convex_polygon(rng, rng.choice([3, 4, 5, 6]))
+        if va is None:
+            continue
+        cx, cy = sum(p[0] for p in va) / len(va), sum(p[1] for p in va) / len(va)
+        mode = i % 4
+        if mode == 0:        # shrunken copy about the centroid: inside
+            k = F(rng.choice([1, 2, 3]), 4)
+            vb = [(cx + k * (p[0] - cx), cy + k * (p[1] - cy)) for p in va]
+        elif mode == 1:      # small triangle / quadrilateral around the centroid: inside unless A is thin
+            vb = _convex_polygon(rng, rng.choice([3, 4]))
+            if vb is None:
+                continue
+            bx, by = sum(p[0] for p in vb) / len(vb), sum(p[1] for p in vb) / len(vb)
+            vb = [(cx + (p[0] - bx) / 8, cy + (p[1] - by) / 8) for p in vb]
+        elif mode == 2:      # another convex polygon somewhere near: crossing / disjoint / containing
+            vb = _convex_polygon(rng, rng.choice([3, 4, 5]))
+            if vb is None:
+                continue
+        else:                # the container seen from inside: A in B for an enlarged copy
+            k = F(rng.choice([3, 5]), 2)
+            vb = [(cx + k * (p[0] - cx), cy + k * (p[1] - cy)) for p in va]
+            va, vb = vb, va
+        a, b = ("S", G.verts_to_jordan(va)), ("S", G.verts_to_jordan(vb))
+        if _compatible(a, b):
+            yield {"a": a, "b": b, "same": False, "convex": [va, vb]}
     npools = ctx.n(2, 40)
     for _ in range(npools):
         pool = _pool(rng)
@@ -304,6 +333,18 @@ def check(ctx, case):
             fails.append(Fail(kind="O", what="B in A but A|B is not A", impl=ru))
         if rn[0] != "ok" or not U.shape_same(rn[1], I.shape_data(I.mk_shape(b))):
             fails.append(Fail(kind="O", what="B in A but A&B is not B", impl=rn))
+    if case.get("convex") and ri[0] == "ok":
+        va, vb = case["convex"]
+        ca, cb, tt, ar, ans, ja, jb = ctx.model.convex_in(va, vb)
+        same = lambda j, k: [list(map(tuple, sg)) for sg in j] == [list(map(tuple, sg)) for sg in k]
+        if not (ca and cb) or not same(ja, a[1]) or not same(jb, b[1]):
+            fails.append(Fail(kind="K", what="convex_ccw_b rejects a strictly convex counter-clockwise polygon, or poly_of is not the curve given to the implementation", model=[ca, cb]))
+        elif tt and (ar or len(vb) == 3):
+            ctx.count("theorem C03_convex_in_iff: every hypothesis evaluated true (answer %s)" % truth)
+            if ans != ("ok", truth):
+                fails.append(Fail(kind="K", what="C03_convex_in_iff applies (hypotheses evaluated true) but the model's answer is not the subset relation", model=ans, expected=truth))
+        else:
+            ctx.count("theorem C03_convex_in_iff: %s" % ("tolerance hypothesis fails" if not tt else "area short-cut branch (B larger than A, B not a triangle): answer judged by the oracle only"))
     if case.get("hist") and (truth or case["hist"] in ("moveB", "reflectA")):
         # the same question on objects with a history (every pair where the answer is True, a third of the others)
         ctx.count("history:" + case["hist"])
